@@ -11,7 +11,7 @@ LEVEL = 'exploration'
 RULE = ('ALL non-empty predicates over one variable of each sign class '
         '(ranges 0..3, -2..1, -4..-1) and over the two-variable grids '
         '0..3x0..1, -2..1x0..1, -4..-1x0..1 (thorough: also 0..7, three '
-        'and four 0..1 variables, 0..3x-2..1 samples) x care in {TRUE, '
+        'and four 0..1 variables, 0..3x-2..1 samples; both tiers: every fourth (thorough: every) cyclic-core predicate over four 0..1 variables) x care in {TRUE, '
         'hints, f|g, a care set missing a point of f} x printing options '
         'show_dom x show_limits x comment; Context.to_expr output (the '
         'documented placeholder conjunct "care expression" read as TRUE) '
@@ -55,13 +55,24 @@ def shards(tier, seed):
             for lo in range(1 + seed % 4, 256, 64):
                 out.append(dict(grid=g, lo=lo, hi=min(lo + 15, 255),
                                 opts='2', backend='cudd'))
+    # four 0..1 variables: every fourth (thorough: every) predicate whose
+    # covering problem has a non-empty cyclic core, care = TRUE
+    for lo in range(1, 65536, 1024):
+        out.append(dict(grid='b4', cyclic=[lo, min(lo + 1023, 65535)],
+                        every=1 if tier == 'thorough' else 4,
+                        offset=seed % 4, opts='2', backend='cudd',
+                        care_only='TRUE'))
     return out
 
 
 def cases(shard):
     g = shard['grid']
     opts = dict(all=OPTS_ALL, **{'4': OPTS_4, '2': OPTS_4[1:3]})[shard['opts']]
-    if 'spread' in shard:
+    if 'cyclic' in shard:
+        from vlib.props.c09 import _cyclic
+        fs = [f for i, f in enumerate(_cyclic(g, *shard['cyclic']))
+              if i % shard['every'] == shard['offset'] % shard['every']]
+    elif 'spread' in shard:
         off, lo, hi = shard['spread']
         fs = [1 + (off + 16 * i) % 65535 for i in range(lo, hi)]
     else:
@@ -70,6 +81,8 @@ def cases(shard):
     for f in fs:
         for cname, cm in cv.care_menu(g, f):
             if f == (1 << n) - 1 and cm == f:
+                continue
+            if shard.get('care_only') and cname != shard['care_only']:
                 continue
             for sd, sl, cm_ in opts:
                 yield dict(grid=g, f=f, care=cm, care_name=cname,
